@@ -106,8 +106,11 @@ class CloneGen:
                     n = need("cmp", r.random() < 0.15, share=rel("count", "framer"), op=r.choice((">=", ">", "==")), goal=r.randint(1, 4))
                 elif k < 0.7:
                     n = need("recurred", False, op=">=", goal=r.randint(1, 3))
-                elif k < 0.85:
+                elif k < 0.8:
                     n = need("cmp", False, share=r.choice(("in.a", "in.b")), op="==", goal=r.randint(0, 1))
+                elif k < 0.9:
+                    # a marker condition on an ABSOLUTE share: every clone keeps its own mark on it
+                    n = need("updated", False, share=r.choice(("in.a", "in.b")), frame="", by="", form="name")
                 else:
                     n = need("cmp", False, share=rel("total", "framer main"), op=">=", goal=r.randint(1, 5))
                 fr["precur"].append({"k": "go", "far": far, "needs": [n], "transit": []})
